@@ -15,6 +15,7 @@ import PsutilModel.Proofs.C07Parse
 import PsutilModel.Proofs.C07Hist
 import PsutilModel.Proofs.C07Proc
 import PsutilModel.Proofs.C07Ext
+import PsutilModel.Proofs.C07Store
 import PsutilModel.Model.C07Gen
 namespace Psutil.C07
 open Spec
@@ -1099,5 +1100,175 @@ example : isKernelTok [52, 50] = true ∧ (isDigitTok [48, 48, 55] = true ∧ is
 /-- a blocking call with two readable snapshots exists (hypotheses of `C07_blocking_sample_is_remembered`) -/
 example : ∃ b : Call, b.blocking = true ∧ ∃ r0 r1 rest, b.reads = r0 :: r1 :: rest :=
   ⟨⟨.percent, 1, some 1, false, [[], []]⟩, by simp [Call.blocking], [], [], [], rfl⟩
+
+/-! ## J. seeded round 5: HOW MANY threads hold a sample at the same time
+
+`St` — the state of the theorems of section D — is a total function `Fam → Tid → Option Stored`: by its very type
+it can remember a sample for every thread there is. The code files the samples in four Python objects. Here the
+same front ends run over that container (`cstep` over `CSt`: four insertion-ordered dictionaries with the retention
+policy `Cfg.storeBound`, a translator fact), so that the population of the dictionaries — how many threads have a
+sample filed at the same time — is quantified over explicitly, and a container that forgets is refuted. -/
+
+/-- proof obligation on the facts `lastDictDefs` / `lastDictOtherUses` / `lastStoreBound`: every value ever bound
+    to `_last_cpu_times`, `_last_per_cpu_times`, `_last_cpu_times_2`, `_last_per_cpu_times_2` is a dict display
+    (`{tid: sample}` in the `try:`, `{}` in its `except Exception:`) or `.copy()` of one — builtin `dict`s —, and
+    the module touches these objects in no other way than `X.get(tid)`, `X[tid]`, `X[tid] = …` (no deletion, `pop`,
+    `popitem`, `clear`, no length test, no iteration, no alias, no other key): nothing is ever dropped, which is the
+    container `cstep` runs on (`storeBound = none`). A dict subclass, an `OrderedDict`/cache with a bound, pruning
+    inside `cpu_percent` … stop this theorem building. -/
+theorem cfg_store_plain_dict :
+    Gen.C07.lastDictDefs =
+      ["_last_cpu_times: try: {threading.current_thread().ident: cpu_times()}",
+       "_last_cpu_times: except Exception: {}",
+       "_last_per_cpu_times: try: {threading.current_thread().ident: cpu_times(percpu=True)}",
+       "_last_per_cpu_times: except Exception: {}",
+       "_last_cpu_times_2: _last_cpu_times.copy()",
+       "_last_per_cpu_times_2: _last_per_cpu_times.copy()"] ∧
+    Gen.C07.lastDictOtherUses = [] ∧
+    cfg.storeBound = none := by
+  refine ⟨?_, ?_, ?_⟩ <;> decide
+
+/-- **C07_own_previous_sample_any_population.** `C07_own_previous_sample` over the container the code really
+    files the samples in: after ANY history — any number of distinct threads, so any number of entries held by the
+    four dictionaries at the same time — a call returns what the history-defined specification says: it is measured
+    against the sample the same thread last took through the same function and variant. -/
+theorem C07_own_previous_sample_any_population (vlen tck : Nat) (h : List Call) (c : Call) :
+    let e : Env := ⟨cfg, vlen, tck⟩
+    (cstep e (crunAll e CSt.init h) c).2 = expected (sample e) (calcStored e) h c := by
+  intro e
+  have hb : e.cfg.storeBound = none := cfg_store_plain_dict.2.2
+  rw [cstep_out, crunAll_view e hb, view_init]
+  exact C07_own_previous_sample vlen tck h c
+
+/-- **C07_store_retains_every_thread.** After ANY history every dictionary holds, for EVERY thread, exactly the
+    sample the specification remembers for it (`prev`): however many other threads have filed samples since — one
+    or ten thousand — none is dropped, replaced or mixed up. -/
+theorem C07_store_retains_every_thread (vlen tck : Nat) (h : List Call) (fam : Fam) (tid : Tid) :
+    let e : Env := ⟨cfg, vlen, tck⟩
+    ((crunAll e CSt.init h).dict fam).get tid = prev (sample e) fam tid h := by
+  intro e
+  have hb : e.cfg.storeBound = none := cfg_store_plain_dict.2.2
+  have hv := congrFun (congrFun (crunAll_view e hb h CSt.init) fam) tid
+  rw [view_init, runAll_entry e cfg_good.dictsDistinct] at hv
+  exact hv
+
+/-- **C07_since_import_any_population.** The same from the state the module-level code leaves (two dict displays
+    with the importing thread's samples and two copies): for any history that follows, with any number of threads. -/
+theorem C07_since_import_any_population (vlen tck : Nat) (tid0 : Tid) (r0 r1 : Bytes) (h : List Call) (c : Call) :
+    let e : Env := ⟨cfg, vlen, tck⟩
+    (cstep e (crunAll e (cimportState e tid0 r0 r1) h) c).2
+      = expectedSinceImport (sample e) (calcStored e) tid0 r0 r1 h c := by
+  intro e
+  have hb : e.cfg.storeBound = none := cfg_store_plain_dict.2.2
+  rw [cstep_out, crunAll_view e hb, cimportState_view]
+  exact C07_since_import vlen tck tid0 r0 r1 h c
+
+/-- **C07_own_history_only.** What the specification promises a call depends on the earlier calls of the SAME
+    thread through the SAME function and variant only: all other calls can be deleted from the history. (The
+    statement "each calling thread is measured against its own previous sample" on the side of the specification;
+    the driver uses it to answer histories with thousands of threads from the caller's own sub-history.) -/
+theorem C07_own_history_only (rd : Bool → Bytes → PRes Stored) (cmp : Fn → Stored → Stored → PRes Val)
+    (h : List Call) (c : Call) :
+    expected rd cmp h c
+      = expected rd cmp (h.filter fun a => decide (a.fam = c.fam ∧ a.tid = c.tid)) c ∧
+    ∀ (tid0 : Tid) (r0 r1 : Bytes),
+      expectedSinceImport rd cmp tid0 r0 r1 h c
+        = expectedSinceImport rd cmp tid0 r0 r1 (h.filter fun a => decide (a.fam = c.fam ∧ a.tid = c.tid)) c := by
+  constructor
+  · unfold expected prev
+    rw [foldl_prevStep_filter]
+  · intro tid0 r0 r1
+    unfold expectedSinceImport prevFrom
+    rw [foldl_prevStep_filter]
+
+/-- the full-strength statement over the container, for a configuration `c0`: for every history and every number
+    of threads a call is measured against its own thread's previous sample -/
+def C07_own_sample_store_Full (c0 : Cfg) : Prop :=
+  ∀ (vlen tck : Nat) (h : List Call) (c : Call),
+    (cstep ⟨c0, vlen, tck⟩ (crunAll ⟨c0, vlen, tck⟩ CSt.init h) c).2
+      = expected (sample ⟨c0, vlen, tck⟩) (calcStored ⟨c0, vlen, tck⟩) h c
+
+/-- **C07_own_sample_store_code.** The full statement holds of the code as it is (builtin dicts). -/
+theorem C07_own_sample_store_code : C07_own_sample_store_Full cfg :=
+  fun vlen tck h c => C07_own_previous_sample_any_population vlen tck h c
+
+/-- **C07_bounded_store_counterexample.** For EVERY bound `n ≥ 1`: with a container that holds at most `n`
+    entries (dropping the entry filed first when a new key arrives) the statement is FALSE as soon as `n + 1`
+    threads poll — whatever else the configuration is, provided `/proc/stat` can be read at all: threads
+    `0 … n` each call `cpu_percent()` once; thread 0 then calls again and is answered from two fresh samples
+    (TWO reads, 0.0 when nothing moved in between) instead of being measured against its own previous sample
+    (ONE read). -/
+theorem C07_bounded_store_counterexample (c0 : Cfg) (hd : c0.dictsDistinct = true) (n : Nat) (hn : 1 ≤ n)
+    (hb : c0.storeBound = some n) (vlen tck : Nat) (r : Bytes) (v : Stored)
+    (hs : sample ⟨c0, vlen, tck⟩ false r = .ok v) (hv : v.truthy = true) :
+    ¬ C07_own_sample_store_Full c0 := by
+  intro hfull
+  let e : Env := ⟨c0, vlen, tck⟩
+  have hs' : sample e false r = .ok v := hs
+  have h1 := hfull vlen tck ((List.range (n + 1)).map (pollCall r)) (pollCall r 0)
+  have hdict : ((crunAll e CSt.init ((List.range (n + 1)).map (pollCall r))).dict fam0).get 0 = none := by
+    rw [crunAll_fill e hd n hb r v hs' (n + 1) (Nat.le_refl _)]
+    exact fillD_full_get_zero n v hn
+  have hL : (cstep e (crunAll e CSt.init ((List.range (n + 1)).map (pollCall r))) (pollCall r 0)).2
+      = expectedRef (sample e) (calcStored e) none (pollCall r 0) := by
+    rw [cstep_out, step_out_ref e hd]
+    show expectedRef _ _ (((crunAll e CSt.init ((List.range (n + 1)).map (pollCall r))).dict fam0).get 0) _ = _
+    rw [hdict]
+  have hothers : ∀ (l : List Nat) (p : Option Stored),
+      (l.map (pollCall r ∘ Nat.succ)).foldl (prevStep (sample e) fam0 0) p = p := by
+    intro l
+    induction l with
+    | nil => intro p; rfl
+    | cons a as ih =>
+      intro p
+      have hp : prevStep (sample e) fam0 0 p ((pollCall r ∘ Nat.succ) a) = p := by
+        simp [prevStep, pollCall, Call.fam, fam0]
+      simp only [List.map_cons, List.foldl_cons, hp]
+      exact ih p
+  have hprev : prev (sample e) fam0 0 ((List.range (n + 1)).map (pollCall r)) = some v := by
+    have h0 : prevStep (sample e) fam0 0 none (pollCall r 0) = some v := by
+      simp [prevStep, taken, pollCall, fam0, Call.fam, Call.negative, Call.blocking, usable, hs', Except.toOption]
+    simp only [prev, List.range_succ_eq_map, List.map_cons, List.foldl_cons, List.map_map, h0]
+    exact hothers _ _
+  have hR : expected (sample e) (calcStored e) ((List.range (n + 1)).map (pollCall r)) (pollCall r 0)
+      = expectedRef (sample e) (calcStored e) (some v) (pollCall r 0) := by
+    unfold expected
+    rw [show (pollCall r 0).fam = fam0 from rfl, show (pollCall r 0).tid = 0 from rfl, hprev]
+  rw [hL, hR] at h1
+  simp only [expectedRef, pollCall, Call.negative, Call.blocking, usable, hv, hs', Bool.false_eq_true,
+    if_false, if_true] at h1
+  cases hc : calcStored e .percent v v <;> simp [hc] at h1
+
+/-- **C07_bounded_store_code_counterexample.** In particular for the code as it is with nothing changed but the
+    container: for every bound `n ≥ 1`, `{cfg with storeBound := some n}` violates the statement with `n + 1`
+    polling threads (the kernel state of `C07_ident_reuse_counterexample` as `/proc/stat`). The bound 64 of a
+    "leak-proof" per-thread cache is the instance `n = 64`: 65 threads. -/
+theorem C07_bounded_store_code_counterexample (n : Nat) (hn : 1 ≤ n) :
+    ¬ C07_own_sample_store_Full { cfg with storeBound := some n } := by
+  let w : ProcStat := ⟨⟨1, 2, 3, 4, 5, 6, 7, 8, 9, 10⟩, [], []⟩
+  have hnf : nfOf 10 = 10 := by decide
+  have hs : sample ⟨cfg, 10, 100⟩ false (renderProcStat 10 w) = .ok (.one (seconds 100 10 w.total)) := by
+    simp only [sample, Env.fields, Bool.false_eq_true, if_false]
+    rw [C07_times_exact 100 (by decide) 10 10 (by decide) w (by simp [w]), hnf]
+  exact C07_bounded_store_counterexample _ cfg_good.dictsDistinct n hn rfl 10 100 (renderProcStat 10 w)
+    (.one (seconds 100 10 w.total)) (by rw [sample_sb]; exact hs) (by simp [Stored.truthy, seconds, Ticks.cols])
+
+/-- non-vacuity of the hypotheses of `C07_bounded_store_counterexample` for the parser as it is: a readable
+    `/proc/stat` exists (the kernel state of `C07_ident_reuse_counterexample`), and its sample is a usable
+    reference -/
+example : ∃ (r : Bytes) (v : Stored), sample ⟨cfg, 10, 100⟩ false r = .ok v ∧ v.truthy = true := by
+  let w : ProcStat := ⟨⟨1, 2, 3, 4, 5, 6, 7, 8, 9, 10⟩, [], []⟩
+  refine ⟨renderProcStat 10 w, .one (seconds 100 10 w.total), ?_, by simp [Stored.truthy, seconds, Ticks.cols]⟩
+  have hnf : nfOf 10 = 10 := by decide
+  simp only [sample, Env.fields, Bool.false_eq_true, if_false]
+  rw [C07_times_exact 100 (by decide) 10 10 (by decide) w (by simp [w]), hnf]
+
+/-- three threads hold a sample at the same time after three first calls (non-vacuity of the population
+    dimension: the dictionary of `C07_store_retains_every_thread` has one entry per thread that called) -/
+example : (PyDict.setItem (PyDict.setItem (PyDict.setItem [] 7 (.one [1])) 8 (.one [2])) 9 (.one [3])).length = 3 ∧
+    PyDict.get (PyDict.setItem (PyDict.setItem (PyDict.setItem [] 7 (.one [1])) 8 (.one [2])) 9 (.one [3])) 7
+      = some (.one [1]) ∧
+    PyDict.get (PyDict.store (some 2) (PyDict.store (some 2) (PyDict.store (some 2) [] 7 (.one [1])) 8 (.one [2])) 9 (.one [3])) 7
+      = none := by decide
 
 end Psutil.C07
